@@ -101,6 +101,7 @@ static double nv_pow(double a, double b) { return nv_nondet_double(); }
 static double nv_exp(double a) { return nv_nondet_double(); }
 static double nv_dbl_epsilon(void) { return 2.220446049250313e-16; }
 static double nv_dbl_max(void) { return 1.7976931348623157e308; }
+static double nv_dbl_inf(void) { return __builtin_inf(); }
 static int64_t nv_fn_size(const struct nv_function* f) { int64_t n = nv_nondet_int64_t(); __CPROVER_assume(n >= 1); return n; }
 
 /* ---- contract of the bodies (property C02) ---- */
